@@ -22,6 +22,7 @@ func init() {
 			"(R5) resources acquired by a start step and not released by that step are released on every failing exit of the start sequence. " +
 			"Does not decide: deadlock freedom and termination over all interleavings (a model-checking question), goroutine census at run time.",
 		RuleDocs: []string{
+			"C10.R7 sticky error: a store of a computed error into a field that a start step returns is not under the test `err != nil` of that very value without a store of nil on the other outcome",
 			"C10.R1 must-pass-through on the start function: error returns after Starting pass a state->Inactive call; occurrence counts of WaitGroup.Add / Done callers per exit; go <core loop> dominated by the state->Active call",
 			"C10.R2 defer of the deactivating call in the entry block of the core loop before any blocking instruction",
 			"C10.R3a lockset dataflow: every Lock is released on all paths; stores to the life-cycle state field only with the mutex held",
